@@ -39,7 +39,10 @@ theorem slotsFrom_renumber (f : Nat → Nat) (l : List Crossing) (i : Nat) :
     slotsFrom (l.map (fun c => c.convertEdges f)) i = (slotsFrom l i).map (fun s => (s.1, f s.2)) := by
   induction l generalizing i with
   | nil => rfl
-  | cons c cs ih => simp [slotsFrom, ih, Crossing.convertEdges]
+  | cons c cs ih =>
+    show slotsFrom (c.convertEdges f :: cs.map (fun c => c.convertEdges f)) i = _
+    simp only [slotsFrom, List.map_cons, ih]
+    rfl
 
 theorem beq_inj (f : Nat → Nat) (hf : Inj f) (a b : Nat) : (f a == f b) = (a == b) := by
   by_cases h : a = b
@@ -50,16 +53,17 @@ theorem beq_inj (f : Nat → Nat) (hf : Inj f) (a b : Nat) : (f a == f b) = (a =
 theorem passEdge_renumber (f : Nat → Nat) (hf : Inj f) (l : Link) (i j : Nat) (hi : i < l.length) :
     passEdge (renumber f l) i j = passEdge l i j := by
   unfold passEdge slots
-  rw [edgeAt_renumber f l i j hi]
+  simp only [edgeAt_renumber f l i j hi]
   show (List.find? _ (slotsFrom (l.map fun c => c.convertEdges f) 0)).map _ = _
   rw [slotsFrom_renumber, List.find?_map, Option.map_map]
-  have hp : ((fun (s : (Nat × Nat) × Nat) => s.2 == f (edgeAt l i j) && s.1 != (i, j)) ∘ fun s => (s.1, f s.2))
-      = fun s => s.2 == edgeAt l i j && s.1 != (i, j) := by
+  have hp : ((fun (s : (Nat × Nat) × Nat) => s.2 == f (edgeAt l i j) && s.1 != (i, j)) ∘
+        fun (s : (Nat × Nat) × Nat) => (s.1, f s.2))
+      = fun (s : (Nat × Nat) × Nat) => s.2 == edgeAt l i j && s.1 != (i, j) := by
     funext s
     show (f s.2 == f (edgeAt l i j) && s.1 != (i, j)) = _
     rw [beq_inj f hf]
   rw [hp]
-  cases List.find? (fun s => s.2 == edgeAt l i j && s.1 != (i, j)) (slotsFrom l 0) <;> rfl
+  cases List.find? (fun (s : (Nat × Nat) × Nat) => s.2 == edgeAt l i j && s.1 != (i, j)) (slotsFrom l 0) <;> rfl
 
 theorem passEdge_range (l : Link) (i j : Nat) (h : Nat × Nat) (hp : passEdge l i j = some h) : HE l h := by
   unfold passEdge at hp
@@ -207,8 +211,9 @@ theorem compsPass_renumber (f : Nat → Nat) (hf : Inj f) (l : Link) (j0 : Nat) 
 theorem components_renumber' (f : Nat → Nat) (hf : Inj f) (l : Link) :
     components (renumber f l) = resMap (List.map (Path.ren f)) (components l) := by
   unfold components
-  have h0 : (([] : List Path), ([] : List Nat)) = renSt f ([], []) := rfl
-  rw [h0, compsPass_renumber f hf]
+  have e0 : compsPass (renumber f l) 0 ([], []) = resMap (renSt f) (compsPass l 0 ([], [])) :=
+    compsPass_renumber f hf l 0 ([], [])
+  rw [e0]
   cases compsPass l 0 ([], []) with
   | panic => rfl
   | err => rfl
